@@ -313,8 +313,9 @@ class Fock(BaseState):
 
         if self.envelope is not None and not separate_measurement:
             if not self.envelope.polarization.measured:
+                # The partner only measures itself, this state is already measured
                 out = self.envelope.polarization.measure(
-                    separate_measurement=separate_measurement, destructive=destructive
+                    separate_measurement=True, destructive=destructive
                 )
                 assert isinstance(out, dict)
                 for m_key, m_value in out.items():
